@@ -214,6 +214,19 @@ pub fn minimise(
             c.recorder.special_rate = 0;
             progress |= try_it(c, &mut cur, budget);
             let mut c = cur.clone();
+            c.recorder.sticky = 0;
+            progress |= try_it(c, &mut cur, budget);
+            let mut c = cur.clone();
+            c.recorder.blank = 0;
+            progress |= try_it(c, &mut cur, budget);
+            let mut c = cur.clone();
+            c.recorder.raw_len_zero = false;
+            progress |= try_it(c, &mut cur, budget);
+            let mut c = cur.clone();
+            c.stream.prefix = 0;
+            c.stream.suffix = 0;
+            progress |= try_it(c, &mut cur, budget);
+            let mut c = cur.clone();
             c.recorder.teams = false;
             progress |= try_it(c, &mut cur, budget);
             let mut c = cur.clone();
